@@ -227,7 +227,7 @@ def impl_adupdates(p, variant, n, cb='outer'):
 def family_adupdates(ctx, r, exact, n, opaque=False):
     p = gen_adupdates(r, exact, opaque)
     p.update(cseed=r.cseed, exact=exact, opaque=opaque)
-    n = min(n, 8)
+    n = min(n, 8 if ctx.quick else 20)
     key = 'adupdates vs adupdates_simple ranges={} g={}'.format(p['opkind'], p['gk'])
     st_o, log_o, x_o = impl_adupdates(p, 'opt', n, 'outer')
     finals_s = []
@@ -326,7 +326,7 @@ def impl_dpdc(p, variant, n):
 def family_dpdc(ctx, r, exact, n, opaque=False):
     p = gen_dpdc(r, exact, opaque)
     p.update(cseed=r.cseed, exact=exact, opaque=opaque)
-    n = min(n, 8)
+    n = min(n, 8 if ctx.quick else 20)
     key = 'doubleprox_dc vs doubleprox_dc_simple opkind={} f={} phi={} g={}'.format(
         p['opkind'], p['fk'], p['hk'], p['gk'])
     st_o, log_o, x_o, y_o = impl_dpdc(p, 'opt', n)
@@ -784,7 +784,7 @@ def plan(ctx, deep=False):
     rng = ctx.rng
     quick = ctx.quick and not deep
     per = 40 if quick else 150
-    nmax = 8 if quick else 24
+    nmax = 8 if quick else 60
     out = []
     for fam in sorted(FAMILIES):
         for i in range(per):
